@@ -4,6 +4,7 @@
   Close.  Proof file.
 -/
 import Nexus.Client.RendezvousWf
+import Nexus.Client.PptLemmas
 import Nexus.Client.Witness
 
 namespace Nexus.Client.R
@@ -27,7 +28,7 @@ theorem inv_reachable (cfg : Cfg) (st : State) (h : Reachable cfg st) : Inv cfg 
 
 set_option hygiene false in
 macro "live_close" : tactic => `(tactic| (
-  all_goals (try (rcases hout with ⟨hout, hsc'⟩ | ⟨hout, hsc'⟩))
+  split_mod
   all_goals (try (simp [returnNow, startRequest, fireAndForget, State.nextId, Phase.gone, Phase.left, Phase.receiving,
     Ev.isRun, Phase.started] at *))
   all_goals (try (simp only [hws, haw, hrun, hout, hdone, hclose, hrd] at *))
@@ -82,15 +83,42 @@ theorem stuck_of_stuckB (cfg : Cfg) (st : State) (h : stuckB cfg st = true) : Ru
 /-- Today's configuration as regenerated from the source. -/
 def cfgToday : Cfg := {}
 
-theorem today_no_escape : cfgToday.signalEscapes = false := by decide
+/-- The configuration the source had before fixes 652e15e, 710325f, aee6f97 (regression witness). -/
+def cfgOld : Cfg := { signalEscapes := false, abortClosesSend := true, ppt := PptFacts.allBare }
 
-theorem f16_runs : ((steps cfgToday {} Witness.f16).map (stuckB cfgToday)) = some true := by decide
+theorem today_escapes : cfgToday.signalEscapes = true := by decide
+theorem today_deletes : cfgToday.deletesEntry = true := by decide
+theorem today_abort : cfgToday.abortClosesSend = false := by decide
+theorem today_ppt : cfgToday.ppt.clean := gen_clean
 
-theorem f16dup_runs : ((steps cfgToday {} Witness.f16dup).map (stuckB cfgToday)) = some true := by decide
+/-- "Close() has returned and nothing crashed". -/
+def closedOK (s : State) : Bool := decide (s.close = .returned) && s.crashed.isNone
 
-theorem pptAbort_runs :
-    ((steps Witness.pptAbortCfg {} Witness.pptAbort).map (·.crashed)) = some (some "send on closed channel") := by
+theorem exists_of_map {o : Option State} {p : State → Bool} (h : o.map p = some true) :
+    ∃ s, o = some s ∧ p s = true := by
+  cases o with
+  | none => simp at h
+  | some s => exact ⟨s, rfl, by simpa using h⟩
+
+/-- The F16 witnesses on today's code: the loop takes the `gone` case and Close() returns … -/
+theorem f16_fixed : ((steps cfgToday {} (Witness.f16 ++ Witness.f16Tail)).map closedOK) = some true := by decide
+theorem f16dup_fixed : ((steps cfgToday {} (Witness.f16dup ++ Witness.f16Tail)).map closedOK) = some true := by decide
+/-- … whereas with the select of before the fix they leave the loop stuck. -/
+theorem f16_old_stuck : ((steps cfgOld {} Witness.f16).map (stuckB cfgOld)) = some true := by decide
+theorem f16dup_old_stuck : ((steps cfgOld {} Witness.f16dup).map (stuckB cfgOld)) = some true := by decide
+
+/-- The F41 witness on today's code: ABORT, EndRecv, the loop exits, Close() closes the peer once. -/
+theorem pptAbort_fixed : ((steps Witness.pptAbortCfg {} Witness.pptAbort).map closedOK) = some true := by decide
+/-- Before the fix, Close() (here: its GOODBYE) ran into the closed channel. -/
+theorem pptAbort_old_crashes :
+    ((steps { Witness.pptAbortCfg with abortClosesSend := true } {}
+      [.apiStart 1 .call "p1" false, .apiWait 1, .inject (.result 1 [(N.OptPPTScheme, .str "x_a")] [] []),
+       .runRecv, .deliver, .finish 1, .closeStart]).map (·.crashed)) = some (some "send on closed channel") := by
   decide
+
+/-- The open finding F43: CANCEL sent after Close() closed the send channel. -/
+theorem closeRace_crashes :
+    ((steps cfgToday {} Witness.closeRace).map (·.crashed)) = some (some "send on closed channel") := by decide
 
 /-- A stuck loop never exits, so Done is never signalled and Close never returns. -/
 theorem stuck_close_never_returns (cfg : Cfg) (st : State) (hreach : Reachable cfg st) (hs : RunStuck cfg st)
@@ -205,7 +233,7 @@ theorem invDoneOnce_step (cfg : Cfg) (st : State) (ev : Ev) (st' : State)
     InvDoneOnce st' := by
   unfold InvDoneOnce at hinv ⊢
   analyse_step
-  all_goals (try (rcases hout with ⟨hout, hsc'⟩ | ⟨hout, hsc'⟩))
+  split_mod
   all_goals (try (simp [returnNow, startRequest, fireAndForget, State.nextId, isDoneOut, List.countP_cons] at *))
   all_goals (try (simp only [hws, haw, hrun, hout, hdone] at *))
   all_goals (try (simp_all [isDoneOut, List.countP_cons]))
@@ -244,15 +272,6 @@ theorem session_end_signals_done (cfg : Cfg) (st : State) (x : Option RMsg) (res
   exact ⟨st', by simp [step, hc, h1, h4], h2, h3⟩
 
 /-! ### Close returns -/
-
-/-- "Close() has returned and nothing crashed". -/
-def closedOK (s : State) : Bool := decide (s.close = .returned) && s.crashed.isNone
-
-theorem exists_of_map {o : Option State} {p : State → Bool} (h : o.map p = some true) :
-    ∃ s, o = some s ∧ p s = true := by
-  cases o with
-  | none => simp at h
-  | some s => exact ⟨s, rfl, by simpa using h⟩
 
 /-- From a state in which the loop is at its select (or has exited), the send side is open and
     nothing crashed, Close() can run to completion. -/
@@ -313,11 +332,46 @@ theorem close_from_quiet (cfg : Cfg) (st : State) (hi : Inv cfg st) (hc : st.cra
 def quietB (s : State) : Bool :=
   s.crashed.isNone && !s.sendClosed && (match s.run with | .idle => true | .exited => true | _ => false)
 
-/-- Unless it is stuck for good, the loop can be brought back to its select by letting the
-    goroutine it waits for (a waiter on its way into its select, the progress goroutine, the
-    application's event handler, a worker) take its next steps. -/
+/-- With a clean site table the post-processing of a call never panics. -/
+theorem postProcess_no_panic {cfg : Cfg} (hp : cfg.ppt.clean) (st : State) (w : Waiter) (r : Ret) (site : String) :
+    postProcess cfg st w r ≠ .panic site := by
+  intro h
+  obtain ⟨d, a, k, hpc⟩ := postProcess_panic h
+  have := prepareCallResult_clean hp cfg.deser cfg.dealerPPT d a k
+  rw [hpc] at this
+  simp at this
+
+/-- A waiter that has left its select deletes its entry (closing `gone`): the step exists, nothing
+    crashes, the send side stays open, the loop is untouched, the waiter has left. -/
+theorem finish_step_ok (cfg : Cfg) (st : State) (g : Nat) (r : Ret)
+    (hp : cfg.ppt.clean) (ha : cfg.abortClosesSend = false)
+    (hc : st.crashed = none) (hsc : st.sendClosed = false) (hph : (st.ws g).phase = .finishing r) :
+    ∃ st1, step cfg st (.finish g) = some st1 ∧ st1.crashed = none ∧ st1.sendClosed = false ∧
+      st1.run = st.run ∧ (st1.ws g).phase.left = true := by
+  by_cases hprog : (st.ws g).hasProg = true
+  · refine ⟨(st.forget cfg (st.ws g).req).setW g { st.ws g with phase := .closing r }, ?_, ?_, ?_, ?_, ?_⟩
+    · simp [step, stepCore, hc, hsc, hph, hprog]
+    · simpa using hc
+    · simpa using hsc
+    · simp
+    · simp [Phase.left]
+  · have hcore : stepCore cfg st (.finish g) = some (complete cfg (st.forget cfg (st.ws g).req) g r) := by
+      simp [stepCore, hph, hprog]
+    rcases complete_cases cfg (st.forget cfg (st.ws g).req) g r with ⟨site, hpanic, _⟩ | ⟨st1, r', sm, hpp, ho⟩
+    · exact absurd hpanic (postProcess_no_panic hp _ _ _ _)
+    · refine ⟨complete cfg (st.forget cfg (st.ws g).req) g r, by simp [step, hc, hsc, hcore], ?_, ?_, ?_, ?_⟩
+      · rw [ho]; simp [sm.crashed, hc]
+      · rw [ho]; simp [postProcess_sendClosed ha hpp, hsc]
+      · rw [ho]; simp [sm.run]
+      · rw [ho]; simp [Phase.left]
+
+/-- Whatever the loop is doing, it can be brought back to its select by letting the goroutine it
+    waits for take its next steps: a waiter on its way into its select, the progress goroutine,
+    the application's event handler, a worker — or, for a waiter that has gone, the waiter's own
+    exit path, after which the loop takes the `gone` case. -/
 theorem unblock_run (cfg : Cfg) (st : State) (hi : Inv cfg st) (hc : st.crashed = none)
-    (hsc : st.sendClosed = false) (hesc : cfg.signalEscapes = false) (hns : ¬ RunStuck cfg st) :
+    (hsc : st.sendClosed = false) (hp : cfg.ppt.clean) (ha : cfg.abortClosesSend = false)
+    (hns : ¬ RunStuck cfg st) :
     ∃ evs, (steps cfg st evs).map quietB = some true := by
   cases hrun : st.run with
   | idle => exact ⟨[], by simp [steps, quietB, hc, hsc, hrun]⟩
@@ -326,6 +380,11 @@ theorem unblock_run (cfg : Cfg) (st : State) (hi : Inv cfg st) (hc : st.crashed 
   | busy m => exact ⟨[.busyEnd], by simp [steps, step, stepCore, quietB, hc, hsc, hrun]⟩
   | signalling g m =>
     have hst := (hi.corr.2 g m hrun).2
+    have hesc : (st.ws g).phase.gone = true → cfg.signalEscapes = true := by
+      intro hg
+      cases he : cfg.signalEscapes with
+      | true => rfl
+      | false => exact absurd ⟨he, g, m, hrun, hg⟩ hns
     cases hph : (st.ws g).phase with
     | idle => simp [hph, Phase.started] at hst
     | pending =>
@@ -339,28 +398,68 @@ theorem unblock_run (cfg : Cfg) (st : State) (hi : Inv cfg st) (hc : st.crashed 
           by simp [steps, step, stepCore, quietB, hc, hsc, hrun, hph, hpb]⟩
       | false =>
         exact ⟨[.progTake g, .deliver], by simp [steps, step, stepCore, quietB, hc, hsc, hrun, hph, hpb]⟩
-    | finishing r => exact absurd ⟨hesc, g, m, hrun, by simp [hph, Phase.gone]⟩ hns
-    | closing r => exact absurd ⟨hesc, g, m, hrun, by simp [hph, Phase.gone]⟩ hns
-    | returned r => exact absurd ⟨hesc, g, m, hrun, by simp [hph, Phase.gone]⟩ hns
+    | finishing r =>
+      have he := hesc (by simp [hph, Phase.gone])
+      obtain ⟨st1, h1, hc1, hsc1, hrun1, hleft⟩ := finish_step_ok cfg st g r hp ha hc hsc hph
+      refine ⟨[.finish g, .giveUp], ?_⟩
+      have h2 : step cfg st1 .giveUp = some { st1 with run := .idle } := by
+        simp [step, stepCore, hc1, hsc1, hrun1, hrun, he, hleft]
+      simp [steps, h1, h2, quietB, hc1, hsc1]
+    | closing r =>
+      have he := hesc (by simp [hph, Phase.gone])
+      exact ⟨[.giveUp], by simp [steps, step, stepCore, quietB, hc, hsc, hrun, hph, he, Phase.left]⟩
+    | returned r =>
+      have he := hesc (by simp [hph, Phase.gone])
+      exact ⟨[.giveUp], by simp [steps, step, stepCore, quietB, hc, hsc, hrun, hph, he, Phase.left]⟩
 
 theorem inv_steps (cfg : Cfg) (evs : List Ev) (st st' : State) (hi : Inv cfg st)
     (h : steps cfg st evs = some st') : Inv cfg st' :=
   steps_invariant cfg (Inv cfg) (inv_step cfg) evs st st' hi h
 
-/-- Partial form of "Close() always returns": from every reachable state in which the loop is
-    not stuck for good, nothing crashed and the send side is still open, some continuation lets
-    Close() return (the application's handlers return, the workers finish). -/
-theorem close_can_return (cfg : Cfg) (st : State) (hr : Reachable cfg st) (hc : st.crashed = none)
-    (hsc : st.sendClosed = false) (hesc : cfg.signalEscapes = false) (hns : ¬ RunStuck cfg st) :
+/-! ### who closes the send channel, and what can still panic -/
+
+/-- With today's `abortSession` only `Close()` closes the send channel (once, as its last act), and
+    with a clean site table the only panic left is a send on that closed channel (F43). -/
+def InvClose (st : State) : Prop :=
+  (st.sendClosed = true → st.close = .returned) ∧
+  (∀ s, st.crashed = some s → s = "send on closed channel" ∧ st.sendClosed = true)
+
+theorem invClose_init : InvClose {} := by
+  constructor <;> intros <;> simp_all
+
+theorem invClose_step (cfg : Cfg) (hp : cfg.ppt.clean) (ha : cfg.abortClosesSend = false)
+    (st : State) (ev : Ev) (st' : State)
+    (hinv : InvClose st) (h : step cfg st ev = some st') : InvClose st' := by
+  obtain ⟨h1, h2⟩ := hinv
+  analyse_step
+  all_goals (try (exact absurd hpanic (postProcess_no_panic hp _ _ _ _)))
+  all_goals (try (exfalso; have hcl := eventPpt_clean hp cfg.deser d a k; rw [hpanic] at hcl; simp at hcl))
+  all_goals (try (have hscp := postProcess_sendClosed ha hpp))
+  all_goals (refine ⟨?_, ?_⟩)
+  all_goals (try (intro s hs))
+  all_goals live_close
+
+theorem invClose_reachable (cfg : Cfg) (hp : cfg.ppt.clean) (ha : cfg.abortClosesSend = false)
+    (st : State) (h : Reachable cfg st) : InvClose st :=
+  reachable_invariant cfg InvClose invClose_init (invClose_step cfg hp ha) st h
+
+/-- From every reachable state in which nothing has crashed and the loop is not stuck for good,
+    some continuation lets Close() return (the application's handlers return, the workers finish). -/
+theorem close_can_return (cfg : Cfg) (hp : cfg.ppt.clean) (ha : cfg.abortClosesSend = false)
+    (st : State) (hr : Reachable cfg st) (hc : st.crashed = none) (hns : ¬ RunStuck cfg st) :
     ∃ evs st', steps cfg st evs = some st' ∧ st'.close = .returned ∧ st'.crashed = none := by
   have hi := inv_reachable cfg st hr
-  obtain ⟨e1, h1⟩ := unblock_run cfg st hi hc hsc hesc hns
-  obtain ⟨s1, hs1, hq⟩ := exists_of_map h1
-  simp only [quietB, Bool.and_eq_true, Option.isNone_iff_eq_none, Bool.not_eq_true'] at hq
-  obtain ⟨⟨hc1, hsc1⟩, hrun1⟩ := hq
-  have hrun1' : s1.run = .idle ∨ s1.run = .exited := by
-    cases hr1 : s1.run <;> simp [hr1] at hrun1 ⊢
-  obtain ⟨e2, s2, hs2, hcl, hcr⟩ := close_from_quiet cfg s1 (inv_steps cfg e1 st s1 hi hs1) hc1 hsc1 hrun1'
-  exact ⟨e1 ++ e2, s2, by rw [steps_concat, hs1]; simpa using hs2, hcl, hcr⟩
+  have hcl := invClose_reachable cfg hp ha st hr
+  cases hsc : st.sendClosed with
+  | true => exact ⟨[], st, rfl, hcl.1 hsc, hc⟩
+  | false =>
+    obtain ⟨e1, h1⟩ := unblock_run cfg st hi hc hsc hp ha hns
+    obtain ⟨s1, hs1, hq⟩ := exists_of_map h1
+    simp only [quietB, Bool.and_eq_true, Option.isNone_iff_eq_none, Bool.not_eq_true'] at hq
+    obtain ⟨⟨hc1, hsc1⟩, hrun1⟩ := hq
+    have hrun1' : s1.run = .idle ∨ s1.run = .exited := by
+      cases hr1 : s1.run <;> simp [hr1] at hrun1 ⊢
+    obtain ⟨e2, s2, hs2, hcl2, hcr⟩ := close_from_quiet cfg s1 (inv_steps cfg e1 st s1 hi hs1) hc1 hsc1 hrun1'
+    exact ⟨e1 ++ e2, s2, by rw [steps_concat, hs1]; simpa using hs2, hcl2, hcr⟩
 
 end Nexus.Client.R
